@@ -15,6 +15,16 @@ CHECKS = {
         "generators (boundary menus, piecewise-stationary streams) bound what the implementation runs see.",
    technique="Lean 4 proof (acceptor decides the declarative contract; model traces accepted, by induction) + the Lean acceptor executed on implementation traces",
    ref="§7 C01"),
+ "C02": dict(
+   text="Lean twin theorems (simulation relation preserved by every step, established by the update that follows a drift): for every history ending in a "
+        "reported drift and every continuation, the running detector model reports what a fresh model reports on the continuation, total shifted; "
+        "carrier-free, so valid for the executed Float instance. On the real classes the same relation is executed: fresh twins (documented carry-over "
+        "only, built from public data) are started at reported drifts and at explicit set_reference calls and compared after every update of all later "
+        "epochs, stochastic detectors under a per-call numpy seed schedule.",
+   note="Trusted: Lean kernel; hand-written detector models (tied to the code by the correspondence checks of C04/C05/C07/C09/C10); the twin runs are "
+        "differential testing bounded by the generators; numpy global RNG re-seeding aligns stochastic twins.",
+   technique="Lean 4 proof (simulation relation / twin-run induction over arbitrary continuations) + twin relation executed on the real detectors",
+   ref="§7 C02"),
  "C13": dict(
    text="Lean 4 theorems for all n and all parameters: majority/minimum/ordered verdict iff count rule, range, monotonicity; "
         "ConfirmedElection refines the documented per-member voter automaton, counters <= wait_time. Tied to election.py by an "
